@@ -14,6 +14,7 @@ import (
 	"fmt"
 	"math"
 	"reflect"
+	"sort"
 	"strings"
 
 	cid "github.com/ipfs/go-cid"
@@ -179,6 +180,15 @@ type Clash struct {
 	B pk2.Item
 }
 
+// MapAnyT is an ordered map whose values are Any: scalars, lists and maps.
+type MapAnyT struct {
+	Keys   []string
+	Values map[string]datamodel.Node
+}
+type HasMapAny struct {
+	M MapAnyT
+}
+
 // BigU holds unsigned values above the int64 range, alone and in (nested) slices.
 type BigU struct {
 	U uint64
@@ -227,6 +237,8 @@ type Chain struct { A String (rename "B")  B String (rename "C")  C String (rena
 type Item1 struct { N Int }
 type Item2 struct { N Int  M String }
 type Clash struct { A Item1  B Item2 }
+type MapAny {String:Any}
+type HasMapAny struct { M MapAny }
 type UList [Int]
 type UListList [UList]
 type BigU struct { U Int  L UList  N UListList }
@@ -376,6 +388,26 @@ var vocab = []vtype{
 		vals: []func() interface{}{func() interface{} { return &Chain{A: "1", B: "2", C: "3"} }}},
 	{name: "Clash", schema: "Clash", inferable: true, mayRefuseInferred: true, ptr: func() interface{} { return (*Clash)(nil) },
 		vals: []func() interface{}{func() interface{} { return &Clash{A: pk1.Item{N: 1}, B: pk2.Item{N: 2, M: "m"}} }}},
+	{name: "HasMapAny", schema: "HasMapAny", ptr: func() interface{} { return (*HasMapAny)(nil) },
+		vals: []func() interface{}{
+			func() interface{} {
+				mapNode := func() datamodel.Node {
+					nb := basicnode.Prototype.Any.NewBuilder()
+					model.Assemble(nb, model.MapV().Put("x", model.IntV(1)).Put("y", model.ListV(model.IntV(2), model.StringV("two"))), linkOf, nil)
+					return nb.Build()
+				}
+				listNode := func() datamodel.Node {
+					nb := basicnode.Prototype.Any.NewBuilder()
+					model.Assemble(nb, model.ListV(model.BoolV(true), model.MapV().Put("in", model.NullV())), linkOf, nil)
+					return nb.Build()
+				}
+				return &HasMapAny{M: MapAnyT{Keys: []string{"s", "m", "l", "m2"}, Values: map[string]datamodel.Node{
+					"s": basicnode.NewString("scalar"), "m": mapNode(), "l": listNode(), "m2": mapNode()}}}
+			},
+			func() interface{} {
+				return &HasMapAny{M: MapAnyT{Keys: []string{}, Values: map[string]datamodel.Node{}}}
+			},
+		}},
 	{name: "BigU", schema: "BigU", cborOnly: true, ptr: func() interface{} { return (*BigU)(nil) },
 		vals: []func() interface{}{
 			func() interface{} {
@@ -666,6 +698,39 @@ func Exec(o Op) (out string) {
 				}
 			}
 		}
+		// A node assigned whole (AssignNode) from a node of the same binding holds its own data: changing the
+		// SOURCE's Go value in place afterwards (through a slice element, a map entry, a pointed-to field) must
+		// not show in what was built. val is this operation's own value; it is not used again.
+		for _, repr := range []bool{false, true} {
+			b3 := proto.NewBuilder()
+			var from datamodel.Node = src
+			what := "type"
+			if repr {
+				b3, from, what = proto.Representation().NewBuilder(), src.Representation(), "representation"
+			}
+			if err := b3.AssignNode(from); err != nil {
+				continue
+			}
+			built3 := b3.Build().(schema.TypedNode)
+			before := avh(built3) + avh(built3.Representation())
+			if strings.Contains(before, "unreadable:") {
+				continue
+			}
+			fresh := vt.vals[o.Val%len(vt.vals)]() // the source of this round: wrapped, assigned from, then changed
+			b4 := proto.NewBuilder()
+			from = bindnode.Wrap(fresh, st)
+			if repr {
+				b4, from = proto.Representation().NewBuilder(), from.(schema.TypedNode).Representation()
+			}
+			if err := b4.AssignNode(from); err != nil {
+				continue
+			}
+			built4 := b4.Build().(schema.TypedNode)
+			h4 := avh(built4) + avh(built4.Representation())
+			if mutateShared(reflect.ValueOf(fresh).Elem()) && avh(built4)+avh(built4.Representation()) != h4 {
+				out += " FID:node-built-by-" + what + "-level-AssignNode-changes-with-its-source's-Go-value=false"
+			}
+		}
 		return out
 	case 1:
 		n := bindnode.Wrap(val, st)
@@ -789,3 +854,79 @@ func Sample(which, val int) (name string, n schema.TypedNode) {
 
 // VocabSize is the number of types in the vocabulary.
 func VocabSize() int { return len(vocab) }
+
+// mutateShared changes v's data in place through the first shared reference it finds (a slice
+// element, a map entry, the target of a pointer) and reports whether it changed anything. A copy of
+// the struct made with plain assignment shares exactly these with v.
+func mutateShared(v reflect.Value) bool {
+	switch v.Kind() {
+	case reflect.Struct:
+		if v.Type() == rCid {
+			return false
+		}
+		for i := 0; i < v.NumField(); i++ {
+			if mutateShared(v.Field(i)) {
+				return true
+			}
+		}
+	case reflect.Ptr:
+		if !v.IsNil() {
+			return mutateScalar(v.Elem()) || mutateShared(v.Elem())
+		}
+	case reflect.Slice:
+		if v.Type().Elem().Kind() == reflect.Uint8 {
+			return false // byte slices are handed over without a copy by convention: writing into them is the caller's fault
+		}
+		for i := 0; i < v.Len(); i++ {
+			if mutateScalar(v.Index(i)) || mutateShared(v.Index(i)) {
+				return true
+			}
+		}
+	case reflect.Map:
+		keys := v.MapKeys()
+		sort.Slice(keys, func(i, j int) bool { return fmt.Sprint(keys[i]) < fmt.Sprint(keys[j]) })
+		for _, k := range keys {
+			c := reflect.New(v.Type().Elem()).Elem()
+			c.Set(v.MapIndex(k))
+			if mutateScalar(c) || mutateStructScalar(c) {
+				v.SetMapIndex(k, c)
+				return true
+			}
+		}
+	}
+	return false
+}
+
+func mutateScalar(v reflect.Value) bool {
+	if !v.CanSet() {
+		return false
+	}
+	switch v.Kind() {
+	case reflect.String:
+		v.SetString(v.String() + "~changed")
+	case reflect.Int, reflect.Int8, reflect.Int16, reflect.Int32, reflect.Int64:
+		v.SetInt(v.Int() ^ 1)
+	case reflect.Uint, reflect.Uint8, reflect.Uint16, reflect.Uint32, reflect.Uint64:
+		v.SetUint(v.Uint() ^ 1)
+	case reflect.Bool:
+		v.SetBool(!v.Bool())
+	case reflect.Float64:
+		v.SetFloat(v.Float() + 1)
+	default:
+		return false
+	}
+	return true
+}
+
+// mutateStructScalar changes the first scalar field of a struct value (for map entries that are structs).
+func mutateStructScalar(v reflect.Value) bool {
+	if v.Kind() != reflect.Struct || v.Type() == rCid {
+		return false
+	}
+	for i := 0; i < v.NumField(); i++ {
+		if mutateScalar(v.Field(i)) {
+			return true
+		}
+	}
+	return false
+}
